@@ -113,14 +113,21 @@ def bound_consistency_algorithm(
         for var_idx in range(prop_var_end - prop_var_start):
             shr_domain_idx = prop_indices[var_idx]
             events = 0
+            # a shared domain can be used by several variables of the propagator:
+            # the new shared domain is the intersection of what has been computed for each of them
             shr_domain_min = prop_domains[var_idx, MIN] - prop_offsets[var_idx, 0]  # because of vertical shape
-            if shr_domains_stack[top, shr_domain_idx, MIN] != shr_domain_min:
+            if shr_domains_stack[top, shr_domain_idx, MIN] < shr_domain_min:
                 shr_domains_stack[top, shr_domain_idx, MIN] = shr_domain_min
                 events |= EVENT_MASK_MIN
             shr_domain_max = prop_domains[var_idx, MAX] - prop_offsets[var_idx, 0]  # because of vertical shape
-            if shr_domains_stack[top, shr_domain_idx, MAX] != shr_domain_max:
+            if shr_domains_stack[top, shr_domain_idx, MAX] > shr_domain_max:
                 shr_domains_stack[top, shr_domain_idx, MAX] = shr_domain_max
                 events |= EVENT_MASK_MAX
+            shr_domain_min = shr_domains_stack[top, shr_domain_idx, MIN]
+            shr_domain_max = shr_domains_stack[top, shr_domain_idx, MAX]
+            if shr_domain_min > shr_domain_max:
+                statistics[STATS_IDX_PROPAGATOR_INCONSISTENCY_NB] += 1
+                return PROBLEM_INCONSISTENT
             if shr_domain_min == shr_domain_max:
                 events |= EVENT_MASK_GROUND
             if events != 0:
